@@ -132,9 +132,7 @@ def d3_wait_returns_on_first_failure(ctx, rm: REModel):
 
     tests = [i for i, n in enumerate(g.nodes) if n.kind == "test" and isinstance(n.stmt, ast.If) and F is not None
              and A.norm(n.stmt.test) in (F, f"len({F}) > 0", f"len({F})", f"{F} != set()", f"not {F}", f"len({F}) == 0", f"{F} == set()")]
-    if not tests:
-        ctx.ob("C12.D3-wait-awaits-the-group", cname(w, None, "branch on `the group has pending futures`"), False,
-               "the test on the popped group's futures was not found (anchor lost)", where=where(w, w.node))
+    ctx.require(tests, "anchor vanished: the branch of RunEngine._wait on `the popped group has pending futures`")
     for t in tests:
         neg = A.norm(g.nodes[t].stmt.test) in (f"not {F}", f"len({F}) == 0", f"{F} == set()")
         starts = [v for v, lab in g.succ[t] if lab == ("F" if neg else "T")]
